@@ -97,6 +97,70 @@ def strict_eq_literal(n, consts=None):
     return None
 
 
+def _normalise_js(program):
+    """`const c = <condition>; if (c) {..}` - a name computed for the very next `if` and used nowhere else - is
+    that `if`'s condition (the JS side of the normaliser in engine._normalise)"""
+    for n in list(walk(program)):
+        for key in ("body", "stmts"):
+            lst = n.get(key)
+            if not isinstance(lst, list):
+                continue
+            i = 0
+            while i + 1 < len(lst):
+                st, nx = lst[i], lst[i + 1]
+                if not (isinstance(st, dict) and st.get("type") == "VariableDeclaration" and len(st.get("declarations", [])) == 1 and isinstance(nx, dict) and nx.get("type") == "IfStatement"):
+                    i += 1
+                    continue
+                d = st["declarations"][0]
+                nm = ident_name(d.get("id")) if (d.get("id") or {}).get("type") == "Identifier" else None
+                if nm is None or d.get("init") is None:
+                    i += 1
+                    continue
+                def cond_positions(e):
+                    """identifiers standing where a truth value is wanted: the test itself, under !, && and ||"""
+                    t = e.get("type")
+                    if t == "Identifier":
+                        return [e]
+                    if t == "ParenthesisExpression":
+                        return cond_positions(e["expression"])
+                    if t == "UnaryExpression" and e.get("operator") == "!":
+                        return cond_positions(e["argument"])
+                    if t in ("BinaryExpression", "LogicalExpression") and e.get("operator") in ("&&", "||"):
+                        return cond_positions(e["left"]) + cond_positions(e["right"])
+                    return []
+
+                uses_test = [x for x in cond_positions(nx["test"]) if x.get("value") == nm]
+                uses_all = [x for rest in lst[i + 1 :] for x in walk(rest) if x.get("type") == "Identifier" and x.get("value") == nm]
+                if len(uses_test) != 1 or len(uses_all) != 1:
+                    i += 1
+                    continue
+                use = uses_test[0]
+                init = d["init"]
+                use.clear()
+                use.update({"type": "ParenthesisExpression", "span": init.get("span"), "expression": init})
+                del lst[i]
+
+
+def cache_roles(jsfile):
+    """the two module-level caches of js/source-map/index.js by what they are, not by what they are called:
+    `rewritten` is the plain `new Map()`, `original` the other module-level `new <Class>(..)` (the LRU)"""
+    roles = {"rewritten": "rewrittenSourceMapsCache", "original": "originalSourceMapsCache"}
+    maps, others = [], []
+    for stmt in jsfile.body:
+        if stmt.get("type") != "VariableDeclaration":
+            continue
+        for d in stmt["declarations"]:
+            init = d.get("init") or {}
+            nm = ident_name(d["id"]) if (d.get("id") or {}).get("type") == "Identifier" else None
+            if nm and init.get("type") == "NewExpression":
+                (maps if ident_name(init.get("callee")) == "Map" else others).append(nm)
+    if len(maps) == 1:
+        roles["rewritten"] = maps[0]
+    if len(others) == 1:
+        roles["original"] = others[0]
+    return roles
+
+
 class JsFile:
     def __init__(self, js, name):
         from .engine import AnchorMissing
@@ -106,6 +170,9 @@ class JsFile:
         if not rec or not rec.get("ok"):
             raise AnchorMissing("JS file %s" % name)
         self.rec = rec
+        if not rec.get("_normalised"):
+            _normalise_js(rec["program"])
+            rec["_normalised"] = True
         self.program = rec["program"]
         self.body = self.program["body"]
 
